@@ -68,15 +68,6 @@ func init() {
 		Rule: "kernel: filepath.Clean/Join vs model on strings over path metacharacters; every path builder that takes a client value (real function, or real handler/store operation in a sandbox with the touched file read back from the file system) vs its model; PropFail: built/touched path outside the data dir"})
 }
 
-// exit hooks (run by main after exec)
-var exitHooks []func()
-
-func runExitHooks() {
-	for _, f := range exitHooks {
-		f()
-	}
-}
-
 const c19SID = "0-0-7"
 const c19MID = "0"
 
@@ -927,7 +918,7 @@ func c19Real(s *c19Sandbox, b, v string) (string, []PropFail, []string, bool) {
 		ctx.Request.Header.SetMethod("POST")
 		ctx.Request.Header.SetContentType(w.FormDataContentType())
 		ctx.Request.SetBody(body.Bytes())
-		run(func() { lookups.UploadLookupFile(ctx) })
+		run(func() { callLookupHandler(lookups.UploadLookupFile, ctx, 0) })
 		if ctx.Response.StatusCode() == fasthttp.StatusBadRequest && len(effects) == 0 {
 			rejected = true
 		}
@@ -937,26 +928,32 @@ func c19Real(s *c19Sandbox, b, v string) (string, []PropFail, []string, bool) {
 		var invoked bool
 		var ctx *fasthttp.RequestCtx
 		run(func() {
-			invoked, ctx = s.dispatch("lookupGet", v, func(c *fasthttp.RequestCtx, _ string) { lookups.GetLookupFile(c) })
+			invoked, ctx = s.dispatch("lookupGet", v, func(c *fasthttp.RequestCtx, _ string) { callLookupHandler(lookups.GetLookupFile, c, 0) })
 		})
 		tags = append(tags, "route:"+s.routeSrc["lookupGet"])
 		if !invoked {
 			rejected = true
 		} else {
 			readPath = whichRead(func(m string) bool { return bytes.Contains(ctx.Response.Body(), []byte(m+"\n")) })
+			// a file stands at the place the name leads to: "File not found" without a read is the handler refusing the name
+			// (patch c13-1: a name without .csv / .csv.gz is no lookup file)
+			if readPath == "" && ctx.Response.StatusCode() == fasthttp.StatusNotFound {
+				rejected = true
+			}
 		}
 		effects = nil
 	case "lookupDelete":
 		placeMarker(plainContent)
 		var invoked bool
+		var ctx *fasthttp.RequestCtx
 		run(func() {
-			invoked, _ = s.dispatch("lookupDelete", v, func(c *fasthttp.RequestCtx, _ string) { lookups.DeleteLookupFile(c) })
+			invoked, ctx = s.dispatch("lookupDelete", v, func(c *fasthttp.RequestCtx, _ string) { callLookupHandler(lookups.DeleteLookupFile, c, 0) })
 		})
 		tags = append(tags, "route:"+s.routeSrc["lookupDelete"])
-		if !invoked {
+		effects = c19Filter(effects, func(c c19Change) bool { return c.kind == "deleted" })
+		if !invoked || (len(effects) == 0 && ctx.Response.StatusCode() == fasthttp.StatusNotFound) {
 			rejected = true
 		}
-		effects = c19Filter(effects, func(c c19Change) bool { return c.kind == "deleted" })
 	case "inputlookup":
 		placeMarker(func(marker, name string) []byte {
 			content := plainContent(marker, name)
